@@ -9,7 +9,11 @@ import (
 	"flag"
 	"fmt"
 	"os"
+	"runtime"
+	"strconv"
 	"sync"
+	"sync/atomic"
+	"time"
 )
 
 type Ev = map[string]any
@@ -76,6 +80,100 @@ func (w *writer) emitAll(es []Ev) {
 	w.mu.Unlock()
 }
 
+// ---- watchdog -------------------------------------------------------------------------------------
+// A library call that never returns (or allocates without bound) cannot be observed from inside the call, and
+// the goroutine running it cannot be stopped.  The driver therefore keeps the case each worker is executing;
+// when no event has been recorded and no case has started or ended for VERIF_WATCHDOG_S seconds (default 60)
+// while a case is in progress, or the heap exceeds 6 GiB, the watchdog records ONE observation - "this case was
+// still running" -, flushes the trace and ends the process.  What that means is the monitor's business; the
+// confirmation run executes the case alone and must observe the same.
+var watch struct {
+	mu     sync.Mutex
+	active map[int64][]byte
+	next   int64
+	ticks  atomic.Int64
+}
+
+func watchStart(raw []byte) int64 {
+	watch.mu.Lock()
+	defer watch.mu.Unlock()
+	if watch.active == nil {
+		watch.active = map[int64][]byte{}
+	}
+	watch.next++
+	watch.active[watch.next] = append([]byte(nil), raw...)
+	watch.ticks.Add(1)
+	return watch.next
+}
+
+func watchEnd(id int64) {
+	watch.mu.Lock()
+	delete(watch.active, id)
+	watch.mu.Unlock()
+	watch.ticks.Add(1)
+}
+
+func startWatchdog(w *writer, out *os.File, sub string, args []string) {
+	limit := 60 * time.Second
+	if v, err := strconv.Atoi(os.Getenv("VERIF_WATCHDOG_S")); err == nil && v > 0 {
+		limit = time.Duration(v) * time.Second
+	}
+	keep := []string{} // the family's own flags: the confirmation run needs them
+	for i := 0; i < len(args); i++ {
+		if args[i] == "-in" || args[i] == "-out" {
+			i++
+			continue
+		}
+		keep = append(keep, args[i])
+	}
+	go func() {
+		last, lastChange := int64(-1), time.Now()
+		var ms runtime.MemStats
+		for k := 0; ; k++ {
+			time.Sleep(250 * time.Millisecond)
+			w.mu.Lock()
+			progress := int64(w.n) + watch.ticks.Load()
+			w.mu.Unlock()
+			if progress != last {
+				last, lastChange = progress, time.Now()
+			}
+			why := ""
+			if k%4 == 0 {
+				runtime.ReadMemStats(&ms)
+				if ms.HeapAlloc > 6<<30 {
+					why = "memory"
+				}
+			}
+			watch.mu.Lock()
+			var oldest int64
+			for id := range watch.active {
+				if oldest == 0 || id < oldest {
+					oldest = id
+				}
+			}
+			raw := watch.active[oldest]
+			watch.mu.Unlock()
+			if why == "" && oldest != 0 && time.Since(lastChange) > limit {
+				why = "time"
+			}
+			if why == "" || oldest == 0 {
+				continue
+			}
+			e := Ev{"op": "runaway", "ev": "runaway", "family": sub, "why": why, "args": keep, "case": json.RawMessage(raw),
+				"heapMB": int(ms.HeapAlloc >> 20), "idleS": int(time.Since(lastChange).Seconds())}
+			b, _ := json.Marshal(e)
+			w.mu.Lock()
+			w.w.Write(b)
+			w.w.WriteByte('\n')
+			w.n++
+			w.w.Flush()
+			out.Sync()
+			fmt.Printf("events=%d (ended by the watchdog: %s)\n", w.n, why)
+			os.Exit(0)
+		}
+	}()
+}
+
 func readCases(path string, f func(line []byte) error) error {
 	if path == "" {
 		return nil
@@ -91,7 +189,10 @@ func readCases(path string, f func(line []byte) error) error {
 		if len(sc.Bytes()) == 0 {
 			continue
 		}
-		if err := f(sc.Bytes()); err != nil {
+		id := watchStart(sc.Bytes())
+		err := f(sc.Bytes())
+		watchEnd(id)
+		if err != nil {
 			return err
 		}
 	}
@@ -126,6 +227,7 @@ func main() {
 		os.Exit(2)
 	}
 	w := &writer{w: bufio.NewWriterSize(out, 1<<20)}
+	startWatchdog(w, out, sub, os.Args[2:])
 	var derr error
 	switch sub {
 	case "codec":
